@@ -2091,3 +2091,187 @@ func (r *Run) c07CoefficientKeys(coeff map[*types.Var]bool) {
 		}
 	}
 }
+
+// ---------------------------------------------------------------------------
+// C07.1: the walks a call instruction executes, whatever way the callee is picked
+
+// c07Invocation is one way a call instruction of `compatibility` executes one of the two walks: the call is a static
+// call of the walk, a static call of a function that only forwards to it, or a call through a function VALUE that was
+// picked earlier (`f := (*Genome).compatFast; if linear { f = (*Genome).compatLinear }; return f(g, og, opts)`): then
+// each function the value can hold is one invocation, taken under the outcomes of the edge on which it was picked.
+type c07Invocation struct {
+	Call   ssa.CallInstruction
+	Target *ssa.Function // nil: the callee could not be resolved to a walk
+	What   string        // for the report when Target == nil
+	Conds  []Guard       // branch outcomes that hold whenever this target is the one executed
+	Args   []ssa.Value   // what the target receives as (receiver, other genome, options), as values of the caller
+}
+
+// c07Forwards: f does nothing but call one of `targets` (directly or through another function of this kind) with its own
+// parameters and return the result. perm[j] = index of the parameter of f that becomes argument j of the target. This is
+// what go/ssa builds for a method expression (`(*Genome).compatFast` is the thunk `func(g, og, opts) { return g.compatFast(og, opts) }`)
+// and what a hand-written wrapper looks like; it is read from the body, not from the synthetic function's name.
+func c07Forwards(f *ssa.Function, targets map[*ssa.Function]bool, depth int) (*ssa.Function, []int, bool) {
+	if f == nil || depth > 2 || len(f.Blocks) != 1 || len(f.FreeVars) != 0 {
+		return nil, nil, false
+	}
+	var call *ssa.Call
+	var ret *ssa.Return
+	for _, in := range f.Blocks[0].Instrs {
+		switch x := in.(type) {
+		case *ssa.Call:
+			if call != nil {
+				return nil, nil, false
+			}
+			call = x
+		case *ssa.Return:
+			ret = x
+		case *ssa.DebugRef:
+		default:
+			return nil, nil, false // anything else (a store, arithmetic on the result, a load) is not plain forwarding
+		}
+	}
+	if call == nil || ret == nil || len(ret.Results) != 1 || ret.Results[0] != ssa.Value(call) || call.Call.IsInvoke() {
+		return nil, nil, false
+	}
+	callee := call.Call.StaticCallee()
+	if callee == nil {
+		return nil, nil, false
+	}
+	var perm []int
+	used := map[int]bool{}
+	for _, a := range call.Call.Args {
+		prm, ok := a.(*ssa.Parameter)
+		if !ok {
+			return nil, nil, false
+		}
+		idx := -1
+		for i, q := range f.Params {
+			if q == prm {
+				idx = i
+			}
+		}
+		if idx < 0 || used[idx] {
+			return nil, nil, false
+		}
+		used[idx] = true
+		perm = append(perm, idx)
+	}
+	if targets[callee] {
+		return callee, perm, true
+	}
+	t, inner, ok := c07Forwards(callee, targets, depth+1)
+	if !ok || len(inner) > len(perm) {
+		return nil, nil, false
+	}
+	out := make([]int, len(inner))
+	for j, k := range inner {
+		if k >= len(perm) {
+			return nil, nil, false
+		}
+		out[j] = perm[k]
+	}
+	return t, out, true
+}
+
+// c07Invocations lists, for every call instruction of fn that can execute a function of `targets`, the invocations it
+// stands for. Calls that cannot reach a target (logging, math) are not listed; a call through a function value that
+// cannot be resolved completely is listed with Target == nil (the caller fails closed on it).
+func c07Invocations(fn *ssa.Function, targets map[*ssa.Function]bool) []c07Invocation {
+	var out []c07Invocation
+	inLoop := map[*ssa.BasicBlock]bool{}
+	for _, l := range Loops(fn) {
+		for b := range l.Blocks {
+			inLoop[b] = true
+		}
+	}
+	// leaf: the function value `f` is what the call executes under conds
+	leaf := func(c ssa.CallInstruction, f *ssa.Function, conds []Guard) {
+		args := c.Common().Args
+		if targets[f] {
+			out = append(out, c07Invocation{Call: c, Target: f, Conds: conds, Args: args})
+			return
+		}
+		if t, perm, ok := c07Forwards(f, targets, 0); ok && len(f.Params) == len(args) {
+			var mapped []ssa.Value
+			for _, k := range perm {
+				mapped = append(mapped, args[k])
+			}
+			out = append(out, c07Invocation{Call: c, Target: t, Conds: conds, Args: mapped})
+			return
+		}
+		out = append(out, c07Invocation{Call: c, What: "the function " + FuncName(f), Conds: conds})
+	}
+	Instrs(fn, func(b *ssa.BasicBlock, _ int, in ssa.Instruction) {
+		c, ok := in.(ssa.CallInstruction)
+		if !ok || c.Common().IsInvoke() {
+			return
+		}
+		if _, isBuiltin := c.Common().Value.(*ssa.Builtin); isBuiltin {
+			return
+		}
+		if _, isGo := in.(*ssa.Go); isGo {
+			return
+		}
+		if sc := c.Common().StaticCallee(); sc != nil {
+			if _, isClosure := c.Common().Value.(*ssa.MakeClosure); !isClosure {
+				if targets[sc] {
+					leaf(c, sc, Guards(b))
+				} else if _, _, fw := c07Forwards(sc, targets, 0); fw {
+					leaf(c, sc, Guards(b))
+				}
+				return
+			}
+		}
+		// a call through a function value: only values of the walks' signature matter
+		sig, _ := c.Common().Value.Type().Underlying().(*types.Signature)
+		match := false
+		for t := range targets {
+			// the walk as a plain function takes its receiver first
+			ts := t.Signature
+			if sig != nil && ts.Recv() != nil && sig.Params().Len() == ts.Params().Len()+1 && sig.Results().Len() == ts.Results().Len() {
+				match = true
+			}
+			if sig != nil && types.Identical(sig, ts) {
+				match = true
+			}
+		}
+		if !match {
+			return
+		}
+		var resolve func(v ssa.Value, conds []Guard, depth int)
+		resolve = func(v ssa.Value, conds []Guard, depth int) {
+			if depth > 8 {
+				out = append(out, c07Invocation{Call: c, What: "a function value picked through too many merges", Conds: conds})
+				return
+			}
+			switch x := v.(type) {
+			case *ssa.Function:
+				leaf(c, x, conds)
+			case *ssa.ChangeType:
+				resolve(x.X, conds, depth+1)
+			case *ssa.MakeClosure:
+				if f, isF := x.Fn.(*ssa.Function); isF && len(x.Bindings) == 0 {
+					leaf(c, f, conds)
+					return
+				}
+				out = append(out, c07Invocation{Call: c, What: "a closure over local state", Conds: conds})
+			case *ssa.Phi:
+				// the outcomes of the edge that picked the value still hold at the call only when neither the pick
+				// nor the call can be repeated with other outcomes in between
+				if inLoop[x.Block()] || inLoop[b] {
+					out = append(out, c07Invocation{Call: c, What: "a function value picked inside a loop", Conds: conds})
+					return
+				}
+				for i, e := range x.Edges {
+					ec := append(append([]Guard{}, conds...), condsAt(x.Block().Preds[i], x.Block())...)
+					resolve(e, ec, depth+1)
+				}
+			default:
+				out = append(out, c07Invocation{Call: c, What: "a function value of unknown origin (" + v.String() + ")", Conds: conds})
+			}
+		}
+		resolve(c.Common().Value, Guards(b), 0)
+	})
+	return out
+}
